@@ -731,6 +731,7 @@ def _c11_model_line(ast):
         return {"XV": lambda: "v%d" % KINDS.index(f[2][0][1]), "XE": lambda: "e", "XK": lambda: "k"}[f[1]]()
     tr = [tag(f) for f in _items(trav)]
     fr = [tag(f[2][0]) if f[1] == "inl" else "E%d" % f[2][0] for f in _items(frags)]
+    fr += ["E%d" % (i - len(tr)) for i in (1 << 32, (1 << 64) - 2, (1 << 64) - 1)]    # closed form, as in ocaml/fam_nav.ml
     if _is(walk, "None"):
         return "MODEL-PANIC"
     nav = []
